@@ -17,6 +17,103 @@ import re
 from engine import op_place, proj_key, PASS_THROUGH
 
 MAX_DEPTH = 14
+import os
+_KNOWN = None
+
+
+def known_fns():
+    global _KNOWN
+    if _KNOWN is None:
+        _KNOWN = set()
+        try:
+            with open(os.path.join(os.path.dirname(os.path.abspath(__file__)), "known_fns.txt")) as fh:
+                for line in fh:
+                    line = line.strip()
+                    if line and not line.startswith("#"):
+                        _KNOWN.add(line)
+        except OSError:
+            pass
+    return _KNOWN
+
+
+def subst_args(t, mapping):
+    """Replace ('arg', 'name.rest') leaves of a callee term by the caller's terms."""
+    if not isinstance(t, tuple):
+        return t
+    if t and t[0] == "arg":
+        name = t[1]
+        head = re.split(r"[.<\[]", name, 1)[0]
+        if head in mapping:
+            rest = name[len(head):]
+            actual = mapping[head]
+            if not rest:
+                return actual
+            if actual[0] == "arg":
+                return ("arg", actual[1] + rest)
+            # turn the textual rest back into projection keys
+            projs = []
+            for m in re.finditer(r"\.(\w+)|<(\w+)>|(\[[^\]]*\])", rest):
+                if m.group(1) is not None:
+                    projs.append("." + m.group(1))
+                elif m.group(2) is not None:
+                    projs.append("as " + m.group(2))
+                else:
+                    projs.append(m.group(3))
+            return simplify_proj(actual, tuple(projs))
+        return t
+    out = []
+    for x in t:
+        if isinstance(x, tuple):
+            out.append(subst_args(x, mapping))
+        elif isinstance(x, list):
+            out.append([subst_args(y, mapping) if isinstance(y, tuple) else y for y in x])
+        else:
+            out.append(x)
+    return tuple(out)
+
+
+def simplify_proj(t, projs):
+    """Apply projections to a term, looking through aggregates and phi alternatives."""
+    projs = tuple(p for p in projs if p != "*")
+    if not projs:
+        return t
+    k = t[0]
+    if k == "phi":
+        alts = []
+        for a in t[1]:
+            r = simplify_proj(a, projs)
+            if r is not None and r not in alts:
+                alts.append(r)
+        alts = [a for a in alts if a != ("infeasible",)]
+        if not alts:
+            return ("infeasible",)
+        return alts[0] if len(alts) == 1 else ("phi", sorted(alts, key=repr))
+    if k == "agg":
+        name = t[1]
+        p0 = projs[0]
+        rest = projs[1:]
+        variant = name.rsplit("::", 1)[-1]
+        if p0.startswith("as "):
+            if p0[3:] != variant:
+                return ("infeasible",)
+            return simplify_proj(t, rest) if not rest or not rest[0].startswith(".") else _field(t, rest)
+        if p0.startswith("."):
+            return _field(t, projs)
+    if k == "call" and t[1] == "std::ops::FromResidual::from_residual" and projs[0] in ("as Ok", "as Some"):
+        return ("infeasible",)
+    if k == "proj":
+        return ("proj", t[1], tuple(t[2]) + projs)
+    return ("proj", t, projs)
+
+
+def _field(t, projs):
+    p0 = projs[0]
+    rest = projs[1:]
+    idx = p0[1:]
+    ops = t[2]
+    if idx.isdigit() and int(idx) < len(ops):
+        return simplify_proj(ops[int(idx)], rest) if rest else ops[int(idx)]
+    return ("proj", t, projs)
 
 
 def algo_of(type_string):
@@ -95,6 +192,8 @@ class TermBuilder:
         if k == "call":
             t = self.call_term(lf["call"], depth)
             proj = tuple(p for p in lf["proj"] if p != "*")
+            if proj and t[0] in ("phi", "agg"):
+                return simplify_proj(t, proj)
             return ("proj", t, proj) if proj else t
         if k == "agg":
             rv = lf["stmt"]["rv"]
@@ -149,7 +248,31 @@ class TermBuilder:
                 ws = self.writers(c.dest["l"])
                 return ("buf", [self.writer_term(w, i, depth) for (w, i) in ws])
             return ("buf", [])
-        return ("call", d if not c.impl_self else c.full.split("::<")[0] if False else d, [self.term(a, depth + 1) for a in c.args])
+        inl = self.inline_call(c, depth)
+        if inl is not None:
+            return inl
+        return ("call", d, [self.term(a, depth + 1) for a in c.args])
+
+    def inline_call(self, c, depth):
+        """Calls to local functions that are not in rules/known_fns.txt (helpers introduced after the rules
+        were written) are replaced by the callee's return term with the arguments substituted."""
+        facts = getattr(self.body, "facts", None)
+        if facts is None or depth > 6:
+            return None
+        path = c.rpath if (c.rpath and c.rlocal) else (c.decl if c.local and not c.trait else None)
+        if path is None or path not in facts.bodies or path in known_fns():
+            return None
+        callee = facts.bodies[path]
+        if len(callee.blocks) > 120 or callee is self.body:
+            return None
+        sub = TermBuilder(callee, None)
+        sub.pt = self.pt
+        ret = sub.term({"l": 0, "p": []}, depth + 1)
+        mapping = {}
+        for i, a in enumerate(c.args):
+            name = callee.local_name(i + 1) or "_%d" % (i + 1)
+            mapping[name] = self.term(a, depth + 1)
+        return subst_args(ret, mapping)
 
     def vec_macro_elements(self, c):
         """`vec![a, b]` lowers to Box::new_uninit + a store of `[a, b]` through the raw pointer +
